@@ -258,8 +258,11 @@ func (p *polling) send(packets []*packet.Packet) {
 		packets = append(packets, &packet.Packet{
 			Type: packet.CLOSE,
 		})
-		(*shouldClose)()
 		p.shouldClose.Store(nil)
+		// the session is closed once the payload is out: encoding it can take a while (packet data is an
+		// io.Reader), and a session that is closed already refuses the client's next request as unknown
+		// while the response that carries its last packets has not even been written
+		defer (*shouldClose)()
 	}
 
 	option := &packet.Options{Compress: false}
